@@ -215,3 +215,59 @@ def r_file_eq(tmp, inp):
 
 
 REPLAYERS_ALIAS = {'FlowCal.io.FCSFile.__ne__': 'FlowCal.io.FCSFile.__eq__'}
+
+
+@replayer('FlowCal.io.read_fcs_data_segment')
+def r_data_segment(tmp, inp):
+    import math
+    import os
+    import struct
+    import FlowCal
+    if inp.get('bytes') is None:
+        return False, 'witness too large'
+    raw = bytes(int(b) % 256 for b in inp['bytes'])
+    p = os.path.join(tmp, 'seg.bin')
+    with open(p, 'wb') as f:
+        f.write(raw)
+    N, D, begin, end, big = inp['N'], inp['D'], inp['begin'], inp['end'], inp['big']
+    widths = [int(w) for w in inp['widths']]
+    ranges = None if inp.get('ranges') is None else [fnum(r) for r in inp['ranges']]
+    dt = inp['datatype']
+    with open(p, 'rb') as f:
+        res = call(FlowCal.io.read_fcs_data_segment, f, begin, end, dt, N, widths, big, ranges)
+        if res[0] == 'return':
+            got = np.array(res[1])
+    supported = (dt == 'I' and all(w % 8 == 0 and w <= 64 for w in widths)) or (dt == 'F' and all(w == 32 for w in widths)) or \
+                (dt == 'D' and all(w == 64 for w in widths))
+    if ranges is not None and len(ranges) != D:
+        supported = False
+    rowbytes = sum(w // 8 for w in widths)
+    ext = end + 1 - begin
+    consistent = supported and N * rowbytes in (ext, ext - 1) and begin + N * rowbytes <= len(raw)
+    if not consistent:
+        return res[0] != 'raise', 'unsupported layout / size mismatch / missing bytes must raise; observed %s' % res[0]
+    if res[0] == 'raise':
+        if N * rowbytes == 0:
+            return False, 'empty DATA segment: mmap of zero bytes (not decisive)'
+        return True, 'refused a consistent segment: %r' % (res[1],)
+    exp = []
+    pos = begin
+    for i in range(N):
+        row = []
+        for j, w in enumerate(widths):
+            chunk = raw[pos:pos + w // 8]
+            pos += w // 8
+            if dt == 'I':
+                v = int.from_bytes(chunk, 'big' if big else 'little')
+                if ranges is not None:
+                    v = v % (2 ** int(math.ceil(math.log2(ranges[j]))))
+                row.append(v)
+            else:
+                row.append(struct.unpack(('>' if big else '<') + ('f' if dt == 'F' else 'd'), chunk)[0])
+        exp.append(row)
+    exp = np.array(exp).reshape((N, D))
+    if got.shape != (N, D):
+        return True, 'shape %r, expected %r' % (got.shape, (N, D))
+    if not np.array_equal(got, exp, equal_nan=True):
+        return True, 'decoded values %s differ from the bytes in the file %s' % (got.tolist()[:3], exp.tolist()[:3])
+    return False, 'agrees'
